@@ -251,7 +251,7 @@ func c01(c *Ctx) {
 					}
 					r.Fail("C01.R2", fi.Name(), "call of "+name, c.P.Pos(x.Pos()), "a nondeterministic source ("+fn.Pkg().Path()+") is called inside the state-machine step: the result differs between replicas / runs")
 				case "time":
-					nm := fn.Name()
+					nm := fname(fn)
 					if astx.RecvNamed(fn) == nil {
 						// package-level function
 						if timeForbidden[nm] || nm == "After" {
@@ -448,6 +448,7 @@ func (c *Ctx) orderInsensitive(fi *load.FuncInfo, g *cfgx.Graph, rs *ast.RangeSt
 	}
 	var collected []types.Object // local slices appended to
 	idioms := map[string]bool{}
+	constReturns := map[string]bool{}
 	bad := ""
 	localInBody := func(o types.Object) bool {
 		return o != nil && o.Pos() >= rs.Body.Pos() && o.Pos() <= rs.Body.End()
@@ -502,6 +503,22 @@ func (c *Ctx) orderInsensitive(fi *load.FuncInfo, g *cfgx.Graph, rs *ast.RangeSt
 							}
 						}
 					}
+				}
+				// existential search: every result is a constant, so whichever element triggers the exit gives the same answer
+				allConst := len(x.Results) > 0
+				for _, res := range x.Results {
+					if tv, ok := info.Types[res]; !ok || (tv.Value == nil && !tv.IsNil()) {
+						allConst = false
+					}
+				}
+				if allConst {
+					var rs2 []string
+					for _, res := range x.Results {
+						rs2 = append(rs2, astx.Str(res))
+					}
+					constReturns[strings.Join(rs2, ",")] = true
+					idioms["constant early exit"] = true
+					return true
 				}
 				bad = "a return inside the loop makes the result depend on which element is visited first"
 			case *ast.BranchStmt:
@@ -588,6 +605,16 @@ func (c *Ctx) orderInsensitive(fi *load.FuncInfo, g *cfgx.Graph, rs *ast.RangeSt
 	walk(rs.Body)
 	if bad != "" {
 		return false, "", bad
+	}
+	if idioms["constant early exit"] {
+		if len(constReturns) > 1 {
+			return false, "", "the loop returns different constants from different iterations: which one wins depends on the visiting order"
+		}
+		for k := range idioms {
+			if k != "constant early exit" && k != "error exit" {
+				return false, "", "an early exit combined with other effects (" + k + ") exports which elements were visited before the exit"
+			}
+		}
 	}
 	if idioms["break"] && !idioms["commutative flag"] && len(idioms) > 1 {
 		return false, "", "break combined with other effects exports which element came first"
